@@ -23,7 +23,8 @@ V01(o) == IF o.long = 1 THEN VLong(o) ELSE
           ELSE "roundtrip"
 
 QueryBad(o, q) == ~IntervalOK(Triples(o.items, q.c), q.s, q.e, q.iv)
-ValuesBad(o, q) == ~ValuesOK(Triples(o.items, q.c), q.s, q.e, q.vals)
+\* (under a position embedding the per-base array would have billions of entries: not requested)
+ValuesBad(o, q) == o.scale = 1 /\ ~ValuesOK(Triples(o.items, q.c), q.s, q.e, q.vals)
 V03(o) == IF o.obs.result # "ok" THEN "not-ok"
           ELSE IF o.obs.unmapped = 1 THEN "coordinate-not-from-input"
           ELSE IF \E k \in 1..Len(o.obs.queries) : QueryBad(o, o.obs.queries[k]) THEN "interval"
